@@ -87,6 +87,22 @@ def genNext (s : Src) (g : GenSt) : Src × GenSt × Ev × List Call :=
     else (p.1, .done, .stop, [.step])
   | .done => (s, .done, .stop, [])
 
+/-- `k` successive `next()` calls on ONE generator: events, source state and generator state afterwards -/
+def genRun (s : Src) (g : GenSt) : Nat → List Ev × Src × GenSt
+  | 0 => ([], s, g)
+  | k + 1 =>
+    let r := genNext s g
+    let rest := genRun r.1 r.2.1 k
+    (r.2.2.1 :: rest.1, rest.2)
+
+/-- successive, possibly abandoned iterations of the same sequence object: round i creates a fresh
+    generator and calls `next` on it `k_i` times, starting from the source state the previous round left -/
+def rounds (s : Src) : List Nat → List (List Ev)
+  | [] => []
+  | k :: ks =>
+    let r := genRun s .fresh k
+    r.1 :: rounds r.2.1 ks
+
 def setAt {α} : List α → Nat → α → List α
   | [], _, _ => []
   | _ :: xs, 0, v => v :: xs
